@@ -86,20 +86,22 @@ theorem loadPaths_scalars {s s' : St} {paths : List (Nat × List Rat × List Rat
 theorem restore_persist_rel {s s' : St} (occ : List (List Int)) (weightOf : Nat → List Rat)
     (h : restore (persist s) s.n s.workers s.tsteps occ s.ensEng weightOf = .ok s')
     (hslots : s'.W = s.W ∧ s'.trajs = s.trajs ∧ s'.locks = s.locks ∧ FEq s.frac s'.frac ∧ FEq s.wts s'.wts)
-    (hlk : s.locked = []) (hl0 : s.locked0 = []) (hent : s.entropy = s.seed) (hsp : s.spawned = s.cstep) :
+    (hlk : s.locked = []) (hl0 : s.locked0 = []) (hlo : s.lockedOrd = []) (hl0o : s.locked0Ord = [])
+    (hent : s.entropy = s.seed) (hsp : s.spawned = s.cstep) :
     RestoreRel occ s s' := by
   unfold restore at h
   have hsc := loadPaths_scalars h
   obtain ⟨hW, hT, hL, hF, hWt⟩ := hslots
   have hpl : (persist s).locked = [] := by simp [persist, hlk]
+  have hplo : (persist s).lockedOrd = [] := by simp [persist, hlo]
   unfold SameScalars blank at hsc
-  rw [hpl] at hsc
+  rw [hpl, hplo] at hsc
   cases s'
   simp only [St.mk.injEq, persist] at hsc
-  obtain ⟨h1, h2, h3, h4, h5, h6, h7, h8, h9, h10, h11, h12, h13, h14, h15, h16, h17, h18, h19, h20, h21, h22, h23⟩ := hsc
+  obtain ⟨h1, h2, h3, h4, h5, h6, h7, h8, h9, h10, h11, h12, h13, h14, h15, h16, h17, h18, h19, h20, h21, h22, h23, h24, h25⟩ := hsc
   simp only [] at hW hT hL hF hWt
   subst_vars
-  refine ⟨⟨rfl, rfl, rfl, rfl, hlk, hl0, rfl, rfl, rfl, rfl, hF, hWt, rfl, rfl, hent, ?_, rfl,
+  refine ⟨⟨rfl, rfl, rfl, rfl, hlk, hl0, hlo, hl0o, rfl, rfl, rfl, rfl, hF, hWt, rfl, rfl, hent, ?_, rfl,
           fun f => f.elim, fun f => f.elim, ⟨[], by simp, rfl⟩⟩, rfl, rfl, rfl, rfl⟩
   simp [hsp]
 
